@@ -302,8 +302,11 @@
 //! ```
 
 #![cfg_attr(feature = "cargo-clippy", allow(clippy::inline_always))]
+#![allow(unexpected_cfgs)]
 
 mod alloc;
+#[cfg(multiqueue2_verif)]
+mod verif_hooks;
 mod atomicsignal;
 mod broadcast;
 mod consume;
